@@ -1,12 +1,19 @@
 (* Properties_C04.v - steps run in configured order behind barriers and stop at the first failure.
-   System: OrchDefs.v - the loop of robsd() and the jobs it forks, every schedule
-   of main-loop moves and job moves (a list of actions of any length; moves that
-   are not enabled are skipped).  [OInv] is the invariant; [oreach] = reachable
-   from the initial state of a configuration with distinct step ids.
-   ASSUMED: the contract of robsd-wait (see OrchDefs.v) and the shell's process
-   control; proved: the bookkeeping of the loop. *)
+   System: OrchDefs.v - the loop of robsd() and the jobs it forks, every schedule of main-loop moves and job
+   moves (a list of actions of any length; moves that are not enabled are skipped).  [oreach] = reachable from
+   the initial state of a configuration; [wf_cfg], [file_of_cfg], [skip_agrees], [end_last], [fresh_ok] are
+   the named hypotheses of Orch/Statements.v.
+   The property-shaped checker OrchSpec.spec_ok_trace (the oracle the harness applies to real canvas runs) is
+   PROVED to accept every run of the model, and Orch/TraceMeaning.v says what its acceptance means on the
+   sequence of starts and ends itself.
+   ASSUMED: the contract of robsd-wait (see OrchDefs.v) and the shell's process control; the shape of the
+   loop in util.sh is pinned by harness/t_orch.py (gen/Gen_Orch.v). *)
 From Robsd Require Import Orch.OrchSpec Orch.OrchProofs Orch.AccountProofs Orch.ResumeProofs.
+From Robsd Require Import Orch.OrchSteps Orch.TraceMeaning Orch.TraceOracle Orch.NonInterf Orch.FreshFile Orch.Statements Orch.ModelShape.
+From RobsdGen Require Import Gen_Orch.
 Local Open Scope Z_scope.
+
+(* ---- the state invariant -------------------------------------------------------------------------------- *)
 
 (* the invariant holds in every reachable state of every configuration and schedule *)
 Theorem C04_invariant : forall ncpu exit_of name_of steps f0 sched,
@@ -22,10 +29,9 @@ Theorem C04_ncpu_bound : forall ncpu exit_of s,
 Proof. exact ncpu_bound. Qed.
 Print Assumptions C04_ncpu_bound.
 
-(* a step starts only at the head of the loop, in configuration order (it is the
-   head of the remaining schedule), never when skipped; a synchronous step only
-   when nothing at all is running (barrier); a parallel step only when no
-   synchronous step is running (everything running is a remembered parallel job) *)
+(* a step starts only at the head of the loop, in configuration order (it is the head of the remaining
+   schedule), never when skipped; a synchronous step only when nothing at all is running (barrier); a parallel
+   step only when no synchronous step is running (everything running is a remembered parallel job) *)
 Theorem C04_start_conditions : forall ncpu exit_of s s' i par,
   OInv ncpu exit_of s -> main_step ncpu s = Some s' -> evlog s' = evlog s ++ [EStart i par] ->
   mode s = AtHead /\
@@ -35,23 +41,181 @@ Theorem C04_start_conditions : forall ncpu exit_of s s' i par,
 Proof. exact start_conditions. Qed.
 Print Assumptions C04_start_conditions.
 
-(* after a synchronous step failed nothing starts any more and the exit status is non-zero *)
-Theorem C04_stop_at_first_sync_failure : forall ncpu s,
-  mode s = OFailed -> main_step ncpu s = None /\ e_status (trap_exit (mode s) (sfile_ s) false) = 1.
-Proof. exact stop_at_failure. Qed.
-Print Assumptions C04_stop_at_first_sync_failure.
+(* ---- the property-shaped checker accepts every run -------------------------------------------------------- *)
 
-(* a failing parallel step does not change the course of the loop *)
-Theorem C04_parallel_failure_continues : forall exit_of name_of s i s',
-  job_step exit_of name_of s i = Some s' -> mode s' = mode s /\ todo s' = todo s /\ jobs s' = jobs s.
-Proof. exact job_keeps_course. Qed.
-Print Assumptions C04_parallel_failure_continues.
+(* the sequence of step starts and ends of EVERY reachable state - any configuration, any step file of that
+   configuration (fresh or resumed), any ncpu, any schedule - passes the checker: order, skip, barrier,
+   earlier synchronous steps finished, ncpu bound, nothing after a synchronous failure *)
+Theorem C04_checker_accepts_every_run : forall ncpu exit_of name_of steps f0 skip,
+  wf_cfg exit_of name_of steps -> file_of_cfg steps f0 -> skip_agrees steps f0 skip ->
+  forall s, oreach ncpu exit_of name_of steps f0 s ->
+  exists t, check_trace steps skip ncpu t_init (tev_of name_of (evlog s)) = Some t.
+Proof. exact S_check_trace_accepts. Qed.
+Print Assumptions C04_checker_accepts_every_run.
+
+(* the whole oracle (the trace; exit status non-zero iff a synchronous step failed; end recorded iff none
+   failed, and then every step that is not skipped ran to its end; nothing left running) accepts every state
+   in which the invocation has ended.  Guard: the initial file has no end record (an invocation resumed AT the
+   end step is the one-step configuration [end]) and end is the last configured step *)
+Theorem C04_oracle_accepts_every_ended_run_partial : forall ncpu exit_of name_of steps f0 skip,
+  wf_cfg exit_of name_of steps -> file_of_cfg steps f0 -> skip_agrees steps f0 skip ->
+  has_end f0 = false -> end_last steps ->
+  forall s d, oreach ncpu exit_of name_of steps f0 s -> terminal s ->
+  spec_ok_trace steps skip ncpu (tev_of name_of (evlog s))
+                (e_status (trap_exit (mode s) (sfile_ s) d)) (has_end (sfile_ s)) = true.
+Proof. exact S_spec_ok_trace_accepts. Qed.
+Print Assumptions C04_oracle_accepts_every_ended_run_partial.
+
+(* outside the guard: a step file that already holds an end record, handed to a configuration in which a
+   synchronous step fails, ends failed WITH an end record - the oracle rejects.  (canvas never does this: -r
+   resumes such a file at the end step only, step_next / C03.) *)
+Theorem C04_oracle_accepts_every_ended_run_refuted :
+  exists ncpu exit_of name_of steps f0 skip s,
+    wf_cfg exit_of name_of steps /\ file_of_cfg steps f0 /\ skip_agrees steps f0 skip /\ end_last steps /\
+    has_end f0 = true /\
+    oreach ncpu exit_of name_of steps f0 s /\ terminal s /\
+    spec_ok_trace steps skip ncpu (tev_of name_of (evlog s))
+                  (e_status (trap_exit (mode s) (sfile_ s) false)) (has_end (sfile_ s)) = false.
+Proof. exact stale_end_record_witness. Qed.
+Print Assumptions C04_oracle_accepts_every_ended_run_refuted.
+
+(* a fresh invocation, hypotheses on the configuration and the skip set only: ids ascending, distinct names,
+   end last and synchronous, every skipped name configured, end not skipped; the step file is the skip records *)
+Theorem C04_oracle_accepts_every_fresh_run : forall ncpu exit_of name_of steps skip,
+  wf_cfg exit_of name_of steps -> end_last steps -> fresh_ok steps skip ->
+  forall s d, oreach ncpu exit_of name_of steps (skip_file steps skip) s -> terminal s ->
+  spec_ok_trace steps skip ncpu (tev_of name_of (evlog s))
+                (e_status (trap_exit (mode s) (sfile_ s) d)) (has_end (sfile_ s)) = true.
+Proof. exact F_trace_oracle. Qed.
+Print Assumptions C04_oracle_accepts_every_fresh_run.
+
+(* ---- what acceptance means, on the sequence itself (no model involved) ------------------------------------- *)
+
+(* every start in an accepted sequence: a configured step, not skipped, not end, for the first time; every
+   earlier step of the configuration skipped or started before (configuration order, nothing skipped over);
+   every earlier synchronous step finished; a synchronous step only after every step started before it has
+   ended (barrier); a parallel step only while fewer than ncpu steps run *)
+Theorem C04_accepted_start_obeys_the_rules : forall cfg skip ncpu tr1 n tr2 t,
+  check_trace cfg skip ncpu t_init (tr1 ++ TStart n :: tr2) = Some t ->
+  exists p, find_pstep cfg n = Some p /\
+    mem_name n skip = false /\ n <> END /\ ~ In (TStart n) tr1 /\
+    (forall q, In q (before cfg n) -> mem_name (p_name q) skip = true \/ In (TStart (p_name q)) tr1) /\
+    (forall q, In q (before cfg n) -> p_par q = false ->
+               mem_name (p_name q) skip = true \/ exists e, In (TEnd (p_name q) e) tr1) /\
+    (p_par p = false -> forall m, In (TStart m) tr1 -> exists e, In (TEnd m e) tr1) /\
+    (p_par p = true -> (nstarts tr1 - nends tr1 < ncpu)%nat).
+Proof. exact accepted_start. Qed.
+Print Assumptions C04_accepted_start_obeys_the_rules.
+
+(* after a synchronous step has ended with a non-zero status an accepted sequence contains no further start *)
+Theorem C04_accepted_sequence_stops_after_sync_failure : forall cfg skip ncpu tr1 n e tr2 t p,
+  check_trace cfg skip ncpu t_init (tr1 ++ TEnd n e :: tr2) = Some t ->
+  find_pstep cfg n = Some p -> p_par p = false -> e <> 0 ->
+  t_syncfailed t = true /\ forall m, ~ In (TStart m) tr2.
+Proof. exact accepted_stops_after_sync_failure. Qed.
+Print Assumptions C04_accepted_sequence_stops_after_sync_failure.
+
+(* the whole oracle: exit status non-zero iff the failure flag is up, and the flag is up only because a
+   synchronous step ended with a non-zero status; end recorded iff not; completeness; nothing left running *)
+Theorem C04_oracle_meaning : forall cfg skip ncpu tr exit endrec,
+  spec_ok_trace cfg skip ncpu tr exit endrec = true ->
+  exists t, check_trace cfg skip ncpu t_init tr = Some t /\
+    (exit <> 0 <-> t_syncfailed t = true) /\
+    (endrec = true <-> t_syncfailed t = false) /\
+    (endrec = true -> forall p, In p cfg -> p_name p = END \/ mem_name (p_name p) skip = true \/ exists e, In (TEnd (p_name p) e) tr) /\
+    (forall m, In (TStart m) tr -> exists e, In (TEnd m e) tr).
+Proof. exact spec_ok_trace_meaning. Qed.
+Print Assumptions C04_oracle_meaning.
+
+Theorem C04_failure_flag_has_a_cause : forall cfg skip ncpu tr t,
+  check_trace cfg skip ncpu t_init tr = Some t -> t_syncfailed t = true ->
+  exists n e p, In (TEnd n e) tr /\ find_pstep cfg n = Some p /\ p_par p = false /\ e <> 0.
+Proof. exact syncfailed_has_cause. Qed.
+Print Assumptions C04_failure_flag_has_a_cause.
+
+(* ---- "does not wait for other parallel steps": enabledness ------------------------------------------------- *)
+
+(* a parallel step at the head of the schedule that is not skipped is started by the next move of the main
+   loop whenever the queue is not full - whatever else is running *)
+Theorem C04_parallel_start_enabled : forall ncpu s p rest,
+  mode s = AtHead -> todo s = p :: rest -> p_par p = true -> skipped (sfile_ s) (p_name p) = false ->
+  (length (jobs s) < ncpu)%nat ->
+  exists s', main_step ncpu s = Some s' /\ evlog s' = evlog s ++ [EStart (p_id p) true] /\
+             todo s' = rest /\ mode s' = AtHead /\ running s' = running s ++ [(p_id p, JStarted)].
+Proof. exact parallel_start_enabled. Qed.
+Print Assumptions C04_parallel_start_enabled.
+
+(* with a full queue it needs ONE remembered job to be gone, no more: two moves later the step runs next to
+   everything that was still running *)
+Theorem C04_parallel_start_after_one_gone : forall ncpu exit_of s p rest j,
+  OInv ncpu exit_of s -> mode s = AtHead -> todo s = p :: rest -> p_par p = true -> skipped (sfile_ s) (p_name p) = false ->
+  length (jobs s) = ncpu -> In j (jobs s) -> is_running s j = false ->
+  exists s1 s2, main_step ncpu s = Some s1 /\ main_step ncpu s1 = Some s2 /\
+                evlog s2 = evlog s ++ [EStart (p_id p) true] /\ running s2 = running s ++ [(p_id p, JStarted)].
+Proof. exact parallel_start_after_one_gone. Qed.
+Print Assumptions C04_parallel_start_after_one_gone.
+
+(* the synchronous counterpart: enabled at once when nothing is remembered, blocked while a remembered job runs *)
+Theorem C04_sync_start_enabled_iff_barrier_clear : forall ncpu s p rest,
+  mode s = AtHead -> todo s = p :: rest -> p_par p = false -> skipped (sfile_ s) (p_name p) = false ->
+  (beq (p_name p) END = false -> jobs s = [] ->
+   exists s', main_step ncpu s = Some s' /\ evlog s' = evlog s ++ [EStart (p_id p) false] /\
+              todo s' = rest /\ mode s' = WaitSync (p_id p) (p_exit p)) /\
+  (forall j, In j (jobs s) -> is_running s j = true -> main_step ncpu s = None).
+Proof.
+  exact (fun ncpu s p rest Em Et Ep Esk =>
+           conj (fun Eend Ej => sync_start_enabled ncpu s p rest Em Et Ep Esk Eend Ej)
+                (fun j Hj Hr => sync_start_blocked ncpu s p rest j Em Et Ep Esk Hj Hr)).
+Qed.
+Print Assumptions C04_sync_start_enabled_iff_barrier_clear.
+
+(* ---- stop at the first synchronous failure ------------------------------------------------------------------ *)
+
+(* the failed mode is entered exactly because a started synchronous step finished with a non-zero status
+   (replaces the definitional C04_stop_at_first_sync_failure) *)
+Theorem C04_failed_iff_a_sync_step_failed : forall ncpu exit_of name_of steps f0,
+  wf_cfg exit_of name_of steps -> file_of_cfg steps f0 ->
+  forall s, oreach ncpu exit_of name_of steps f0 s ->
+  (mode s = OFailed -> exists i, In (EStart i false) (evlog s) /\ In (EFinish i (exit_of i)) (evlog s) /\ exit_of i <> 0) /\
+  (forall i e, In (EStart i false) (evlog s) -> In (EFinish i e) (evlog s) -> e <> 0 -> mode s = OFailed \/ mode s = WaitSync i e).
+Proof. exact S_failed_iff_failing_sync. Qed.
+Print Assumptions C04_failed_iff_a_sync_step_failed.
+
+(* on the event log of any reachable state: after the finish of a synchronous step with a non-zero status no
+   step is started, whatever the schedule does; and when the invocation has ended, it has failed with exit
+   status 1 *)
+Theorem C04_no_start_after_sync_failure : forall ncpu exit_of name_of steps f0 skip,
+  wf_cfg exit_of name_of steps -> file_of_cfg steps f0 -> skip_agrees steps f0 skip ->
+  forall s l1 i e l2 d, oreach ncpu exit_of name_of steps f0 s ->
+  evlog s = l1 ++ EFinish i e :: l2 -> In (EStart i false) (evlog s) -> e <> 0 ->
+  (forall j b, ~ In (EStart j b) l2) /\
+  (terminal s -> mode s = OFailed /\ e_status (trap_exit (mode s) (sfile_ s) d) = 1).
+Proof. exact S_stop_after_sync_failure. Qed.
+Print Assumptions C04_no_start_after_sync_failure.
+
+(* ---- a failing parallel step does not prevent later steps: non-interference ----------------------------------- *)
+
+(* two configurations that differ only in the exit statuses of PARALLEL steps, run under the same schedule
+   (their jobs may report any statuses): the same steps start in the same order at the same moves, the same
+   moves are enabled, same mode, same remembered and running jobs, same names and skip flags recorded
+   (replaces the definitional C04_parallel_failure_continues) *)
+Theorem C04_parallel_exits_do_not_interfere : forall ncpu ex1 ex2 name_of steps1 steps2 f0 sched,
+  Forall2 same_course steps1 steps2 ->
+  let s1 := orun ncpu ex1 name_of (oinit steps1 f0) sched in
+  let s2 := orun ncpu ex2 name_of (oinit steps2 f0) sched in
+  start_pairs (evlog s1) = start_pairs (evlog s2) /\
+  mode s1 = mode s2 /\ running s1 = running s2 /\ jobs s1 = jobs s2 /\
+  map p_id (todo s1) = map p_id (todo s2) /\
+  map frow (sfile_ s1) = map frow (sfile_ s2) /\
+  (forall a, ostep ncpu ex1 name_of s1 a = None <-> ostep ncpu ex2 name_of s2 a = None).
+Proof. exact parallel_exits_do_not_interfere. Qed.
+Print Assumptions C04_parallel_exits_do_not_interfere.
 
 (* end is recorded only if every synchronous step that was started succeeded *)
-Theorem C04_end_iff_all_sync_ok : forall ncpu exit_of s,
+Theorem C04_end_only_if_all_sync_ok : forall ncpu exit_of s,
   OInv ncpu exit_of s -> mode s = ODone -> forall i, In (EStart i false) (evlog s) -> exit_of i = 0.
 Proof. exact end_iff_sync_ok. Qed.
-Print Assumptions C04_end_iff_all_sync_ok.
+Print Assumptions C04_end_only_if_all_sync_ok.
 
 (* non-vacuity: a, then p1 p2 p3 in parallel with ncpu = 2, then b fails *)
 Example C04_example :
@@ -64,5 +228,14 @@ Example C04_example :
                 AJob 2; AJob 4; AJob 2; AJob 4; AMain; AMain; AJob 5; AJob 5; AMain; AMain] in
   let s := orun 2 ex nm (oinit steps []) sched in
   mode s = OFailed /\ running s = [] /\
-  map r_exit (sfile_ s) = [0; 0; 3; 0; 2].
+  map r_exit (sfile_ s) = [0; 0; 3; 0; 2] /\
+  spec_ok_trace steps [] 2 (tev_of nm (evlog s)) (e_status (trap_exit (mode s) (sfile_ s) false)) (has_end (sfile_ s)) = true.
 Proof. vm_compute. repeat split; reflexivity. Qed.
+
+(* ---- the tie to util.sh ------------------------------------------------------------------------------------- *)
+
+(* the loop of robsd() and step_exec_job as harness/t_orch.py found them in util.sh are the ones main_step /
+   job_step transcribe *)
+Theorem C04_loop_is_the_modelled_one : robsd_loop = modelled_loop /\ step_exec_job_shape = modelled_job.
+Proof. exact (conj (eq_refl modelled_loop) (eq_refl modelled_job)). Qed.
+Print Assumptions C04_loop_is_the_modelled_one.
